@@ -98,6 +98,9 @@ Obs ==
                        \cup (IF ~stale /\ rd.pos + r.n > wr THEN {"C05_DeliveredBeyondWritten"} ELSE {})
                        \* a reader may END (writer replacement, reset); one that is still open must keep following the writer
                        \cup (IF ~stale /\ r.n < r.want /\ ~r.ended THEN {"C05_ReaderStalled"} ELSE {})
+                       \* "an invalidated reader ends or fails": one that hands over nothing more (the harness waited for
+                       \* bytes as long as any kept coming, then 600 ms more) and is still open does neither
+                       \cup (IF stale /\ r.n = 0 /\ ~r.ended THEN {"C05_InvalidatedReaderNeitherEndsNorFails"} ELSE {})
             IN /\ Report(bad)
                /\ readers' = SetReader(r.r, [rd EXCEPT !.pos = @ + r.n])
                /\ UNCHANGED <<id, wl, wr, snap, epoch, lastRange>>
